@@ -57,7 +57,7 @@ class C15(Harness):
         vp = W.load("sktime.utils.validation.panel")
         ni, nc, nt = cell["ni"], cell["nc"], cell["nt"]
         x = inp["x"]
-        names = ["c%s" % chr(97 + j) for j in range(nc)] if inp["custom_names"] else ["var_%d" % j for j in range(nc)]
+        names = ["zb", "ya", "xc"][:nc] if inp["custom_names"] else ["var_%d" % j for j in range(nc)]  # custom names are NOT in lexicographic order
         sym = not isinstance(x[0][0][0], float)
 
         def arr3():
@@ -150,6 +150,13 @@ class C15(Harness):
             "cols": [bool(v) for v in dp.are_columns_nested(n0)],
             "mixed": [bool(v) for v in dp.are_columns_nested(n0.assign(flat=[1.0] * ni))],
         }
+        # a nested column whose FIRST cell is a scalar placeholder is still nested (every cell counts)
+        import numpy as _np
+
+        ragged = pd.DataFrame({"a": [_np.nan, pd.Series([1.0, 2.0]), pd.Series([3.0, 4.0])], "b": [1.0, 2.0, 3.0]})
+        out["pred"]["scalar_first"] = [bool(v) for v in dp.are_columns_nested(ragged)] + [bool(dp.is_nested_dataframe(ragged))]
+        ragged2 = pd.DataFrame({"a": [pd.Series([1.0, 2.0]), _np.nan, _np.nan]})
+        out["pred"]["scalar_later"] = [bool(v) for v in dp.are_columns_nested(ragged2)] + [bool(dp.is_nested_dataframe(ragged2))]
         cx = {}
         cx["nested->numpy"] = canon("3d", vp.check_X(n0, coerce_to_numpy=True))[0]
         cx["3d->pandas"] = canon("nested", vp.check_X(arr3(), coerce_to_pandas=True))[0]
@@ -190,6 +197,7 @@ class C15(Harness):
                 P.check("column-names-preserved", r["cols"] == want, {"path": path, "cols": r["cols"], "want": want})
         p = out["pred"]
         P.check("nestedness-predicates", p["nested"] and p["nested_np"] and not p["flat"] and not p["array"] and p["cols"] == [True] * nc and p["mixed"] == [True] * nc + [False])
+        P.check("nestedness-predicates", p["scalar_first"] == [True, False, True] and p["scalar_later"] == [True, True], {"scalar_first": p["scalar_first"], "scalar_later": p["scalar_later"]})
         for k, vals in out["check_X"].items():
             same(vals, "check_X-coercions", None, {"coercion": k})
 
